@@ -60,8 +60,9 @@ S14 = Select(Int8ub, Int16ub, Int32ub)
 S15 = Struct("o"/Optional(Int16ub), "s"/S14, "r"/Optional(S0))
 S16 = Struct("k"/Byte, "d"/ProcessXor(this.k, Bytes(3)), "e"/ProcessRotateLeft(this.k, 2, Bytes(2)))
 S17 = Struct("n"/Byte, "d"/ProcessXor(b"\\x01\\x02\\x04", Bytes(this.n)), "e"/ProcessXor(b"\\x10\\x20", Prefixed(Byte, GreedyBytes)), "f"/ProcessRotateLeft(5, 3, Bytes(3)))
+S18 = BitStruct("u"/BitsInteger(4), "s"/BitsInteger(4, signed=True))
 '''
-POOL_NAMES = ['S%d' % i for i in range(18)]
+POOL_NAMES = ['S%d' % i for i in range(19)]
 
 
 def namespace():
